@@ -134,6 +134,9 @@ def directed_cases(seed: int, tier: str) -> typing.List[dict]:
             {"op": "generate", "opts": {"file_mode": 0o444}},
             {"op": "api_session", "opts": {"file_mode": 0o640}, "steps": [{"k": "gen"}, {"k": "edit", "how": "content", "pick": 0, "content": "edited by the caller\n", "mode": 0o444}, {"k": "edit", "how": "remove", "pick": 3}, {"k": "gen"}, {"k": "edit", "how": "truncate", "pick": 1, "size": 1, "mode": 0o400}, {"k": "gen", "allow_overwrite": False}, {"k": "new_generators"}, {"k": "gen"}]},
         ],
+        "api-two-pairs-of-generators-interleaved": [
+            {"op": "api_session", "opts": {"file_mode": 0o644}, "steps": [{"k": "gen", "omit_ser": True}, {"k": "gen", "pair": 1}, {"k": "gen", "omit_ser": True}, {"k": "gen", "pair": 1, "omit_ser": True}, {"k": "gen", "pair": 1}, {"k": "gen"}]},
+        ],
         "api-no-overwrite-after-wipe": [
             {"op": "api_session", "opts": {}, "steps": [{"k": "gen"}, {"k": "gen", "allow_overwrite": False}, {"k": "wipe"}, {"k": "gen", "allow_overwrite": False}, {"k": "gen", "which": "support"}]},
         ],
@@ -243,6 +246,8 @@ def _session_steps(r: Rng) -> typing.List[dict]:
                 st["omit_ser"] = True
             if rs.chance(1, 6):
                 st["which"] = rs.choice(["types", "support"])
+            if rs.chance(1, 4):
+                st["pair"] = 1  # the caller's second pair of generator objects (same tree, same directory)
             if k == "gen" and rs.chance(1, 5):
                 st["fault_pick"] = [rs.choice(["oserror", "write_oserror"])]  # this call fails half-way; the caller carries on
         elif k == "edit":
